@@ -112,6 +112,49 @@ pub fn issuers() -> Issuers {
         list.push(mk_issuer(&DnSpec::cn("crl issuer"), &KeyIdSpec::Pre(vec![1, 2, 3]), &[], alg));
         labels.push(format!("alg={}", alg.name()));
     }
+    // issuers whose Certificate object came into being in another way than self-signing: an intermediate issued by a
+    // root, a certificate issued from a parsed request, and a CA re-created from an import. The CRL must name and
+    // identify them exactly as it does a self-signed issuer with the same name, key and key usages.
+    #[cfg(feature = "crypto")]
+    {
+        let zoo = load_zoo();
+        let z = zoo.iter().find(|z| z.kind == KeyKind::Ed25519 && z.name.contains("_2")).unwrap();
+        let dn = DnSpec(vec![(DnTypeSpec::O, StrKind::Utf8, "Provenance".into()), (DnTypeSpec::Cn, StrKind::Utf8, "crl issuer".into())]);
+        let ku = vec![5u8, 6];
+        let root = mk_issuer(&DnSpec::cn("root above the crl issuer"), &KeyIdSpec::Sha384, &[], Alg::EcP256);
+        let mut st = crate::glue::base_cert_state();
+        st.dn = dn.clone();
+        st.key_id = KeyIdSpec::Sha256;
+        st.key_usages = ku.clone();
+        st.is_ca = IsCaSpec::Unconstrained;
+        st.use_aki = true;
+        let spec = IssuerSpec { dn: dn.clone(), key_id: KeyIdSpec::Sha256, key: z.key_pub(Alg::Ed25519), key_usages: ku.clone() };
+        let key = || rc_load(z, Alg::Ed25519).unwrap();
+        // (a) intermediate
+        if let Ok(cert) = crate::glue::to_params(&st).unwrap().signed_by(&key(), &root.cert, &root.key) {
+            list.push(IssuerReal { spec: spec.clone(), cert, key: key() });
+            labels.push("provenance=intermediate issued by a root".into());
+        }
+        // (b) issued from a parsed request
+        if let Ok(csr) = rcgen::CertificateParams::default().serialize_request(&key()) {
+            if let Ok(mut parsed) = rcgen::CertificateSigningRequestParams::from_der(csr.der()) {
+                parsed.params = crate::glue::to_params(&st).unwrap();
+                if let Ok(cert) = parsed.signed_by(&root.cert, &root.key) {
+                    list.push(IssuerReal { spec: spec.clone(), cert, key: key() });
+                    labels.push("provenance=issued from a parsed request".into());
+                }
+            }
+        }
+        // (c) imported and re-issued (the imported key identifier is the fixed value the certificate carried)
+        if let Ok(first) = crate::glue::to_params(&st).unwrap().self_signed(&key()) {
+            if let Ok(p) = rcgen::CertificateParams::from_ca_cert_der(first.der()) {
+                if let Ok(cert) = p.self_signed(&key()) {
+                    list.push(IssuerReal { spec: spec.clone(), cert, key: key() });
+                    labels.push("provenance=imported and re-issued".into());
+                }
+            }
+        }
+    }
     Issuers { list, labels }
 }
 
@@ -299,7 +342,7 @@ pub fn add_sections(rep: &mut Report, prop: &str, thorough: bool, conformant_onl
     let space = crl_space(&iss, conformant_only);
     let cap = if thorough { 1100 } else { 50 };
     {
-        let sec = Section::new("crl/levels", "all CRL states with exactly k non-default dimensions (updates 399, crl_number 9, idp 9, revoked 9, key_id 5, issuer 23)").with_deadline(cap);
+        let sec = Section::new("crl/levels", "all CRL states with exactly k non-default dimensions (updates 399, crl_number 9, idp 9, revoked 9, key_id 5, issuer 26)").with_deadline(cap);
         run::levels(&sec, &space, if thorough { 5 } else { 3 }, &|c, _| judge(prop, &known, c, &iss, true));
         rep.add(sec);
     }
